@@ -1,6 +1,10 @@
 package yqlib
 
-import "github.com/alecthomas/participle/v2/lexer"
+import (
+	"strings"
+
+	"github.com/alecthomas/participle/v2/lexer"
+)
 
 // C09 — parsing honours operator precedence, grouping and bracket discipline.
 //
@@ -668,4 +672,39 @@ func c09InterpOne(e string) string {
 		return ""
 	}
 	return nodes[0].Value
+}
+
+// VerifC09LayoutsOneParser: what an expression means does not depend on which other expressions the same parser object
+// parsed before - in particular not on an expression that differs only in layout, where layout decides (a line feed
+// ends a # comment, a blank does not). Two layouts of one pair of operands, parsed one after the other by one parser:
+// the second means what it means to a parser that sees it first.
+func VerifC09LayoutsOneParser() {
+	pairs := [][2]string{{".a", ".b"}, {".a", "length"}, {".c", ". + 1"}, {".b", ".[0]"}}
+	pr := pairs[verifChoice("operands", len(pairs))]
+	layouts := []string{"X # note | Y", "X # note\n| Y", "X\n# note\n| Y", "X |   Y", "X|Y", "X # note |\tY", "X #note\n|Y", "X\t# note | Y"}
+	i, j := verifChoice("first", len(layouts)), verifChoice("second", len(layouts))
+	mk := func(l string) string {
+		return strings.Replace(strings.Replace(l, "X", pr[0], 1), "Y", pr[1], 1)
+	}
+	shared := newExpressionParser()
+	_, _ = shared.ParseExpression(mk(layouts[i]))
+	second, errShared := shared.ParseExpression(mk(layouts[j]))
+	alone, errAlone := newExpressionParser().ParseExpression(mk(layouts[j]))
+	label := " second-layout=" + verifItoa(int64(j))
+	verifAssert((errShared == nil) == (errAlone == nil), "C09/parse-outcome-depends-on-what-was-parsed-before"+label)
+	if errShared != nil || errAlone != nil {
+		return
+	}
+	doc := func() *CandidateNode {
+		return vDoc(vMap(vStr("a"), vStr("cat"), vStr("b"), vSeq(vInt("1"), vInt("2")), vStr("c"), vInt("4")))
+	}
+	r1, e1 := vEval(second, doc())
+	r2, e2 := vEval(alone, doc())
+	verifAssert((e1 == nil) == (e2 == nil), "C09/evaluation-outcome-depends-on-what-was-parsed-before"+label)
+	if e1 != nil || e2 != nil {
+		return
+	}
+	verifObserve("got", vDumpList(r1))
+	verifAssert(vDumpList(r1) == vDumpList(r2), "C09/meaning-depends-on-what-was-parsed-before"+label)
+	verifCover("C09/layouts-one-parser/end")
 }
